@@ -174,3 +174,11 @@ CASES += [
         (_MG4, "        #SS = self.op.diagonalize()\n        SS = self.op.get_diagonalization_matrix()\n\n        # the operator which defines",
                "        SS = self.op.get_diagonalization_matrix()\n        SS = numpy.array(SS)\n\n        # the operator which defines", 1)]},
 ]
+
+_OP4 = "quantarhei/qm/hilbertspace/operators.py"
+CASES += [
+    {"name": "is_diagonal answers from the raw storage (the repaired defect)", "kind": "mutant", "rule": "C04-B16", "edits": [
+        (_OP4, "        dat = self.data.copy()\n        for i in range(self.dim):\n            dat[i,i] = 0.0\n", "        dat = self._data.copy()\n        for i in range(self.dim):\n            dat[i,i] = 0.0\n", 1)]},
+    {"name": "is_diagonal touches the managed data and then uses the storage", "kind": "twin", "edits": [
+        (_OP4, "        dat = self.data.copy()\n        for i in range(self.dim):\n            dat[i,i] = 0.0\n", "        self.data\n        dat = self._data.copy()\n        for i in range(self.dim):\n            dat[i,i] = 0.0\n", 1)]},
+]
